@@ -443,6 +443,11 @@ def r14_continue_to_else(src):
                         # remove `continue;`, wrap REST (tokens e+1 .. be-1) in else { }
                         edit = [(st[c0].start, st[e].start, ""), (st[e].end, st[e].end, " else {"), (st[be].start, st[be].start, "}\n")]
                         break
+                    if not has_else and e == be - 1:
+                        # the `if`/`if let` block is the LAST statement of the region (tail position of the for body):
+                        # reaching its end is reaching the end of the loop body, so the same rule applies inside it
+                        k, be = b + 1, e
+                        continue
                     k = e + 1
                     if has_else:
                         # skip else chain
